@@ -293,7 +293,8 @@ type gateGen struct {
 	rng *rand.Rand
 	// fixedPath/fixedKind: when set, msg applies exactly this one member mutation (systematic sweep)
 	fixedPath string
-	fixedKind int // 0 absent, 1 null, 2 wrong
+	fixedKind int    // 0 absent, 1 null, 2 wrong
+	tool      string // when set, tools/call targets this tool
 }
 
 var gateMetaVersions = []string{"2026-07-28", "2026-07-28", "2026-07-28", "2025-11-25", "2025-06-18", "2024-11-05", "2027-01-01", "2026-07-29", "2026-07-28x", "9", "", "1999-12-31", "draft"}
@@ -316,6 +317,9 @@ func (g *gateGen) msg(side, method string, k int, force string) gateMsg {
 		m.tags = append(m.tags, "id-flipped")
 	}
 	base, anyPaths := gateBase(side, method, k, rng)
+	if method == "tools/call" && g.tool != "" {
+		base["name"] = g.tool
+	}
 	// ---- params shape
 	shape := "ok"
 	if force == "" {
@@ -489,6 +493,10 @@ func (g *gateGen) msg(side, method string, k int, force string) gateMsg {
 							// `any`-typed, but the preempter refuses an id that is neither a string nor a number
 							nv = []any{map[string]any{}, []any{}, true}[rng.Intn(3)]
 							isAny = false
+						}
+						if method == "sampling/createMessage" && ps == "messages.0.content" {
+							// content may be one block or an array of blocks: an array is not a wrong type
+							nv = []any{"x", float64(7), true}[rng.Intn(3)]
 						}
 						gateSet(o, p, nv, false)
 						m.tags = append(m.tags, "mut:"+ps+":wrong")
@@ -1117,7 +1125,7 @@ func gateTagsFor(m gateMsg, obs string, extra string) []string {
 
 // gateExecute runs all cases in child processes and writes the records.
 func gateExecute(t *testing.T, out *verifOut, cases []gateCase) {
-	dir, err := os.MkdirTemp("", "verif-gate-")
+	dir, err := os.MkdirTemp("", "gatehx-")
 	if err != nil {
 		t.Fatal(err)
 	}
@@ -1290,13 +1298,19 @@ func gateSweep(side string) []gateCase {
 			c.msgs = append(c.msgs, g.msg(side, "ping", len(c.msgs), "legacy"))
 			out = append(out, c)
 		}
-		for _, p := range paths {
-			for kind := 0; kind < 3; kind++ {
-				ps := gatePathStr(p)
-				add(func(g *gateGen) gateMsg {
-					g.fixedPath, g.fixedKind = ps, kind
-					return g.msg(side, method, 2, "legacy")
-				})
+		tools := []string{""}
+		if method == "tools/call" {
+			tools = []string{"typed", "plain"} // the typed tool's input schema declares a default (F12)
+		}
+		for _, tool := range tools {
+			for _, p := range paths {
+				for kind := 0; kind < 3; kind++ {
+					ps := gatePathStr(p)
+					add(func(g *gateGen) gateMsg {
+						g.fixedPath, g.fixedKind, g.tool = ps, kind, tool
+						return g.msg(side, method, 2, "legacy")
+					})
+				}
 			}
 		}
 		for _, sh := range []string{"absent", "null"} {
@@ -1327,9 +1341,9 @@ func gateCases(side string) []gateCase {
 	}
 	var n int
 	if side == "s" {
-		n = verifN(2500, 60000)
+		n = verifN(2500, 20000)
 	} else {
-		n = verifN(1200, 30000)
+		n = verifN(1200, 8000)
 	}
 	for i := 0; i < n; i++ {
 		salt := int64(i)
